@@ -427,12 +427,6 @@ def make_unit(infos):
         fns.append(FnSpec('validate_regex_%d' % n, F, ret='r', body_sub=R25 + R15, sig_sub=[(r'pub\(crate\) fn', 'pub fn')],
                           ensures=['r == ref_accept_%d(ref_run_%d(0, s@))' % (n, n)], loops=cfg['loops'],
                           proofs=[dict(at='body_start', text='proof { lemma_run_%d(s@); }' % n)] + cfg['proofs']))
-    if 24 in infos and infos[24]['kind'] == 'hand' and 8 in shapes:
-        sp, loops, proofs, sh = split24(infos)
-        shapes[24] = sh
-        spec += sp
-        fns.append(FnSpec('validate_regex_24', F, ret='r', body_sub=R25 + R15, sig_sub=[(r'pub\(crate\) fn', 'pub fn')],
-                          ensures=['r == ref_accept_24(ref_run_24(0, s@))'], loops=loops, proofs=proofs))
     u = Unit(name='regex_hand', prop='C19', spec=spec, fns=fns,
              dropped=['doc comments; `pub(crate)` -> `pub`'])
     u.shapes = shapes
